@@ -116,11 +116,13 @@ def run(C, R):
                                    '%s marks a timer Expired on a path without ge(clock.now(), its own expiry) == '
                                    'true [%s]' % (m['path'], pc), where(F, e), {'trace': trace_summary(path)})
                 if m.get('name') == 'try_wait':
-                    k0 = path.facts.get(('discr', ('init', (('P', 'wait_node'), 'data', 'state'))))
+                    from common import own_node_roots as _onr
+                    _own = (list(_onr(F, m)) or [(('P', 'wait_node'),)])[0]
+                    k0 = path.facts.get(('discr', ('init', _own + ('data', 'state'))))
                     s0 = k0[1] if k0 and k0[0] == 'eq' else None
                     pv = poll_variant(E, path)
                     if s0 == 'Unregistered':
-                        expiry = ('init', (('P', 'wait_node'), 'data', 'expiry'))
+                        expiry = ('init', _own + ('data', 'expiry'))
                         d = [due_fact(E, path, n['ret'], expiry) for n in nows]
                         d = d[0] if d else None
                         if d is None or (pv == 'Ready') != (d == 1):
